@@ -516,6 +516,11 @@ def extract_fn(src, selector, spec):
                     ed.rep(t.start, toks[c + 2].end, '();')
                     k = c + 3
                     continue
+                if toks[c + 1].kind == 'close' and toks[c + 1].text == '}':
+                    # tail expression `write!(..)` of a function / block returning fmt::Result
+                    ed.rep(t.start, toks[c].end, 'Ok(())')
+                    k = c + 1
+                    continue
                 raise Inconclusive('%s: write! in a position rule R7 does not cover' % selector)
             k += 1
 
